@@ -1098,7 +1098,22 @@ class Gen(object):
             row = self.rows.get(me) or self.revoked.get(me) or {'secret': 'x', 'pub': [], 'sub': []}
             allc = ['c1', 'c2', 'c3']
             if r < bad:
-                k = rng.choice(['spoof', 'forbidden-pub', 'forbidden-sub', 'garbage', 'lattice', 'info', 'error', 'short', 'badutf', 'reauth-bad'])
+                k = rng.choice(['spoof', 'forbidden-pub', 'forbidden-sub', 'garbage', 'lattice', 'info', 'error', 'short', 'badutf', 'reauth-bad', 'near-name', 'near-name'])
+                if k == 'near-name':
+                    # a name that differs from a permitted one (or from the own ident) only by characters a
+                    # "sanitiser" might drop or fold: control characters, zero-width space, case, surrounding blanks, a dot
+                    def near(x):
+                        return rng.choice([x + '\n', x + '\x00', '\t' + x, x[:1] + '\u200b' + x[1:], x + '\x7f', x.upper() if x.upper() != x else x + ' ', ' ' + x, x + '.', x + '\r\n'])
+                    which = rng.choice(['pub-chan', 'sub-chan', 'ident'])
+                    if which == 'pub-chan' and row['pub']:
+                        out += enc(P.OP_PUBLISH, p8(me.encode()) + p8(near(rng.choice(row['pub'])).encode()) + b'near')
+                    elif which == 'sub-chan' and row['sub']:
+                        out += enc(P.OP_SUBSCRIBE, p8(me.encode()) + near(rng.choice(row['sub'])).encode())
+                    elif row['pub'] and len(me.encode()) < 250:
+                        out += enc(P.OP_PUBLISH, p8(near(me).encode()) + p8(rng.choice(row['pub']).encode()) + b'near-ident')
+                    else:
+                        out += enc(P.OP_PUBLISH, p8(me.encode()) + p8(b'zz') + b'forbidden')
+                    continue
                 if k == 'spoof':
                     other = rng.choice([i for i in IDENTS + list(self.rows) if i != me] or ['x'])
                     out += enc(P.OP_PUBLISH, p8(other.encode()) + p8(rng.choice(row['pub'] or ['c1']).encode()) + b'spoof')
@@ -1587,13 +1602,49 @@ def nonce_variety(res):
         BC.os = real
         srv = BS.Server(Authenticator({}), name='hpfeeds')
         nonces = []
+
+        class _T(object):
+            # the challenge is read off the wire (the OP_INFO written by connection_made), not from an attribute
+            def __init__(self, port):
+                self.port, self.w = port, []
+
+            def write(self, b):
+                self.w.append(bytes(b))
+
+            def get_extra_info(self, name, default=None):
+                return ('127.0.0.1', self.port) if name == 'peername' else default
+
+            def close(self):
+                pass
+
+            def is_closing(self):
+                return False
+
+            def pause_reading(self):
+                pass
+
+            def resume_reading(self):
+                pass
+
+            def set_write_buffer_limits(self, *a, **k):
+                pass
         for i in range(16):
             c = BC.Connection(srv)
-            nonces.append(bytes(c.authrand))
+            t = _T(40000 + (i % 2))          # the same two peers again and again
+            c.connection_made(t)
+            fr = parse_one(t.w[0]) if t.w else None
+            if not fr or fr[0] != P.OP_INFO or not fr[1]:
+                res.violation('C02', 'first-bytes-info', 'connection %d: the first write is not an OP_INFO frame' % i, {'section': 'nonce-variety'})
+                return
+            nonces.append(fr[1][1 + fr[1][0]:])
         res.evaluations += 1
         res.note('nonce-variety.distinct', len(set(nonces)))
         if len(set(nonces)) < 2 or any(len(n) != 4 for n in nonces):
             res.violation('C02', 'constant-nonce', '16 connections got nonces %r' % sorted(set(nonces))[:3], {'section': 'nonce-variety'})
+        elif len(set(nonces)) < len(nonces):
+            # 16 independent 4-byte random values collide with probability 3e-8: a repeat means the challenge is being
+            # reused across connections (cached per server, per peer, per batch), which is what the nonce is there to prevent
+            res.violation('C02', 'repeated-nonce', '16 connections got only %d distinct nonces' % len(set(nonces)), {'section': 'nonce-variety'})
     finally:
         loop.close()
         asyncio.set_event_loop(None)
